@@ -51,7 +51,9 @@ ASSUMPTIONS = [
 
 F = ['bin', 'oct', 'hex']
 GROUPS = [None, 0, 1, 3, 4, 8, 12, 16, 24, 32, 64]
-SEPS = [' ', '', '_', ', ']
+SEPS = [' ', '', '_', ', ', ' ', '', '_', ', ',
+        # "any separator": characters that mean something to str.format / % formatting / regular expressions (no digit of any format, no ':')
+        '{', '}', '{}', '}{', '{x}', '%s', '%', '\\', '|', '$', '#', '.*', '(', '[ ]']
 NS = {'Bits': Bits, 'BitArray': BitArray, 'ConstBitStream': ConstBitStream, 'BitStream': BitStream,
       'Array': Array, 'Dtype': Dtype, '__builtins__': {}}
 MAXC = 1000          # documented truncation limit (MAX_CHARS * 4 bits)
@@ -65,7 +67,7 @@ ARRAY_DTYPES = {
     'float64': 64, 'floatle32': 32, 'floatle64': 64, 'floatne16': 16, 'bfloat': 16, 'bfloatle': 16,
     'p4binary': 8, 'p3binary': 8, 'e4m3mxfp': 8, 'e5m2mxfp': 8, 'e2m1mxfp': 4, 'e3m2mxfp': 6,
     'e2m3mxfp': 6, 'mxint': 8, 'e8m0mxfp': 8, 'bits8': 8, 'bits3': 3, '>H': 16, '<h': 16, '=L': 32,
-    '>f': 32, '<d': 64,
+    '>f': 32, '<d': 64, 'bytes1': 8, 'bytes2': 16, 'bytes3': 24,
 }
 
 # ---- scratch files ----------------------------------------------------------------------------
